@@ -61,20 +61,9 @@ func (c *cbConsumer) callback(b *common.Beacon, closed bool) {
 	}
 }
 
-// streamAdder is the registration a stream handler uses on a tree whose callbackStore knows stream consumers
-// (AddStreamCallback: Put never waits for such a consumer, it ends it when its queue is full). On a tree without it a
-// stream handler registers with AddCallback, and so does the engine.
-type streamAdder interface {
-	AddStreamCallback(id string, fn beacon.CallbackFunc)
-}
-
-func addStreamCallback(st beacon.CallbackStore, id string, fn beacon.CallbackFunc) {
-	if sa, ok := st.(streamAdder); ok {
-		sa.AddStreamCallback(id, fn)
-		return
-	}
-	st.AddCallback(id, fn)
-}
+// addStreamCallback (streamadd_v1.go / streamadd_v2.go, chosen by the build tag cbremover that vlib/core.py sets when the
+// tree's AddStreamCallback returns a remover) registers a consumer the way a stream handler does: AddStreamCallback where the
+// tree's callbackStore has it (Put never waits for such a consumer, it ends it when its queue is full), AddCallback otherwise.
 
 type cbSUT struct {
 	top   beacon.CallbackStore
@@ -192,7 +181,7 @@ func cbstoreEngine(_ []string, in *bufio.Scanner, out *bufio.Writer) {
 				old := s.cons[f[1]]
 				go func() {
 					if f[0] == "adds" {
-						addStreamCallback(s.top, f[1], c.callback)
+						_ = addStreamCallback(s.top, f[1], c.callback)
 					} else {
 						s.top.AddCallback(f[1], c.callback)
 					}
